@@ -49,7 +49,7 @@ def make_cubes(kind, opname, N, max_expired):
         cubes = [dict(c, h=h) for c in cubes for h in range(1, N) if c['root'] >= 0]
     elif N >= 5 and opname not in ('is_empty',):
         cubes = [c for c in cubes if c['root'] < 0] + [dict(c, cnt=k) for c in cubes if c['root'] >= 0 for k in range(1, N)]
-    if kind == 'key' and max_expired is not None and max_expired > 0 and opname not in ('clear', 'is_empty'):
+    if kind == 'key' and max_expired is not None and max_expired > 0 and opname not in ('clear', 'is_empty', 'is_part_of_the_tree'):
         cubes = [dict(c, nexp=e) for c in cubes for e in range(0, max_expired + 1) if not (c['root'] < 0 and e > 0)]
     return cubes
 
@@ -58,6 +58,7 @@ def run_job(job):
     t0 = time.time()
     P = program(job['mir'])
     z3.set_param('sat.random_seed', job.get('seed', 0))
+    steps.TAG_FILTER = job.get('tags')
     try:
         r = steps.run_step(P, job['kind'], job['op'], job['N'], cube=cube_fn(job['cube']) if job.get('cube') is not None else None,
                            max_expired=job.get('max_expired'), allow_growth=job.get('growth', False),
